@@ -241,6 +241,143 @@ def slices() -> Dict[str, Dict]:
     return out
 
 
+# ------------------------------------------------------------------------------------------------ keyword arguments of the other loaders
+# `Router` / `Firewall` / `WirelessRouter.from_config` (and the calls inside `PrimaiteGame.from_config`) do not assign attributes: they
+# hand values read from ONE mapping of the file (`r_cfg`, `port_cfg`, `route`, `nic_cfg` ...) to a call as keyword arguments
+# (`add_rule(src_ip_address=r_cfg.get('src_ip', r_cfg.get('src_ip_address')), ...)`). Every such keyword expression is translated
+# with the same language; the first key the expression reads is `own`, a second key of the same mapping (an alternative spelling) is
+# `dflt`; a lookup table / constructor applied to the value (`PORT_LOOKUP[p]`, `IPv4Address(..)`, `float(..)`) is an opaque
+# function `fn "<name>"` the theorems quantify over.
+KWARG_FUNCTIONS = [
+    ("simulator/network/hardware/nodes/network/router.py", "Router", "from_config"),
+    ("simulator/network/hardware/nodes/network/firewall.py", "Firewall", "from_config"),
+    ("simulator/network/hardware/nodes/network/wireless_router.py", "WirelessRouter", "from_config"),
+    ("game/game.py", "PrimaiteGame", "from_config"),
+]
+
+
+class _KwTr:
+    def __init__(self):
+        self.mapping: Optional[str] = None
+        self.keys: List[str] = []
+        self.binds: Dict[str, Any] = {}
+        self.opaque = False          # reads something that is not a literal key of a plain name
+
+    def _read(self, kind: str, m: ast.AST, k: ast.AST, *rest):
+        if not (isinstance(m, ast.Name) and isinstance(k, ast.Constant) and isinstance(k.value, str)):
+            raise Unsupported("read " + _u(m) + " / " + _u(k))
+        if self.mapping not in (None, m.id):
+            raise Unsupported("two mappings in one argument: " + self.mapping + ", " + m.id)
+        self.mapping = m.id
+        if k.value not in self.keys:
+            self.keys.append(k.value)
+        i = self.keys.index(k.value)
+        if i > 1:
+            raise Unsupported("more than two keys of one mapping in one argument")
+        return (kind, "own" if i == 0 else "dflt", "", *rest)
+
+    def tr(self, e: ast.AST):
+        if isinstance(e, ast.Constant):
+            v = e.value
+            if v is None:
+                return ("lit", ("none",))
+            if isinstance(v, bool):
+                return ("lit", ("bool", v))
+            if isinstance(v, int):
+                return ("lit", ("int", v))
+            if isinstance(v, str):
+                return ("lit", ("str", v))
+            if isinstance(v, float) and v == 0.0:
+                return ("lit", ("float0",))
+            raise Unsupported("constant " + _u(e))
+        if isinstance(e, ast.NamedExpr) and isinstance(e.target, ast.Name):
+            self.binds[e.target.id] = self.tr(e.value)
+            return self.binds[e.target.id]
+        if isinstance(e, ast.Name):
+            if e.id in self.binds:
+                return self.binds[e.id]
+            raise Unsupported("free name " + e.id)
+        if isinstance(e, ast.Call) and isinstance(e.func, ast.Attribute) and e.func.attr == "get" and not e.keywords \
+                and isinstance(e.func.value, ast.Name) and len(e.args) in (1, 2):
+            if len(e.args) == 1:
+                return self._read("get", e.func.value, e.args[0])
+            r = self._read("getD", e.func.value, e.args[0])     # key order = reading order of the source text: outer key first
+            return (*r, self.tr(e.args[1]))
+        if isinstance(e, ast.Subscript) and isinstance(e.value, ast.Name) and e.value.id.isupper():
+            return ("app", e.value.id + "[]", self.tr(e.slice))
+        if isinstance(e, ast.Subscript) and isinstance(e.value, ast.Name) and e.value.id[:1].isupper() and not isinstance(e.slice, ast.Constant):
+            return ("app", e.value.id + "[]", self.tr(e.slice))       # an enum looked up by name: ACLAction[...]
+        if isinstance(e, ast.Subscript) and isinstance(e.value, ast.Name):
+            return self._read("sub", e.value, e.slice)
+        if isinstance(e, ast.Call) and isinstance(e.func, ast.Name) and len(e.args) == 1 and not e.keywords:
+            a = self.tr(e.args[0])
+            return ("int", a) if e.func.id == "int" else ("app", e.func.id, a)
+        if isinstance(e, ast.Compare) and len(e.ops) == 1:
+            op, rhs = e.ops[0], e.comparators[0]
+            if isinstance(op, (ast.In, ast.NotIn)) and isinstance(rhs, ast.Name):
+                return self._read("has" if isinstance(op, ast.In) else "hasNot", rhs, e.left)
+            if isinstance(op, (ast.Is, ast.IsNot)) and isinstance(rhs, ast.Constant) and rhs.value is None:
+                return ("isNone" if isinstance(op, ast.Is) else "isNotNone", self.tr(e.left))
+        if isinstance(e, ast.BoolOp):
+            parts = [self.tr(v) for v in e.values]
+            acc = parts[-1]
+            for p in reversed(parts[:-1]):
+                acc = ("or" if isinstance(e.op, ast.Or) else "and", p, acc)
+            return acc
+        if isinstance(e, ast.UnaryOp) and isinstance(e.op, ast.Not):
+            return ("not", self.tr(e.operand))
+        if isinstance(e, ast.IfExp):
+            c = self.tr(e.test)          # Python evaluates the test first (a walrus in it binds before the branches)
+            return ("cond", c, self.tr(e.body), self.tr(e.orelse))
+        raise Unsupported(_u(e)[:100])
+
+
+def _reads_literal_key(e: ast.AST) -> bool:
+    for n in ast.walk(e):
+        if isinstance(n, ast.Call) and isinstance(n.func, ast.Attribute) and n.func.attr == "get" and isinstance(n.func.value, ast.Name) \
+                and n.args and isinstance(n.args[0], ast.Constant) and isinstance(n.args[0].value, str):
+            return True
+        if isinstance(n, ast.Subscript) and isinstance(n.value, ast.Name) and isinstance(n.slice, ast.Constant) and isinstance(n.slice.value, str) \
+                and not n.value.id[:1].isupper():
+            return True
+    return False
+
+
+def _callee(c: ast.Call) -> str:
+    f = c.func
+    return f.attr if isinstance(f, ast.Attribute) else f.id if isinstance(f, ast.Name) else _u(f)
+
+
+def kwarg_sites() -> List[Dict]:
+    """Every keyword argument, in the loaders of KWARG_FUNCTIONS, whose value reads a literal key of a mapping:
+    {function, callee, keyword, mapping, own_key, alt_key, expr}; identical rows (the six ACLs of a firewall) collapse."""
+    out, seen = [], set()
+    for rel, cls, fn in KWARG_FUNCTIONS:
+        f = find_method(class_def(parse(rel), cls), fn)
+        calls = sorted((n for n in ast.walk(f) if isinstance(n, ast.Call) and n.keywords), key=lambda n: (n.lineno, n.col_offset))
+        for c in calls:
+            for kw in c.keywords:
+                if kw.arg is None or not _reads_literal_key(kw.value):
+                    continue
+                if any(isinstance(n, ast.Call) and n is not kw.value and n.keywords and any(_reads_literal_key(k.value) for k in n.keywords)
+                       for n in ast.walk(kw.value)):
+                    continue            # an argument that is itself such a call: NIC(ip_address=..) inside connect_nic(..); the inner one is a site
+                t = _KwTr()
+                try:
+                    e = t.tr(kw.value)
+                except Unsupported as u:
+                    if cls == "PrimaiteGame":
+                        continue        # PrimaiteGame.from_config's attribute writes are covered by `slices()`; its call arguments best-effort
+                    raise Unsupported(f"{cls}.{fn}: {_callee(c)}({kw.arg}=...) not translatable: {u}")
+                row = dict(function=f"{cls}.{fn}", callee=_callee(c), keyword=kw.arg, mapping=t.mapping, own_key=t.keys[0],
+                           alt_key=t.keys[1] if len(t.keys) > 1 else "", expr=e)
+                k = repr(row)
+                if k not in seen:
+                    seen.add(k)
+                    out.append(row)
+    return out
+
+
 # ------------------------------------------------------------------------------------------------ rendering (Lean)
 def _lean_str(s: str) -> str:
     return '"' + s.replace("\\", "\\\\").replace('"', '\\"') + '"'
@@ -289,6 +426,8 @@ def lean(e) -> str:
         return f"(Py.{k} {lean(e[1])})"
     if k == "cond":
         return f"(Py.cond {lean(e[1])} {lean(e[2])} {lean(e[3])})"
+    if k == "app":
+        return f"(Py.app (fn {_lean_str(e[1])}) {lean(e[2])})"
     raise Unsupported(str(e)[:80])
 
 
@@ -350,6 +489,9 @@ def evaluate(e, own=ABSENT, dflt=ABSENT, init=None, other=None):
         if c is RAISES:
             return RAISES
         return ev(e[2]) if _truthy(c) else ev(e[3])
+    if k == "app":          # an opaque table / constructor: the applied value is kept symbolic
+        a = ev(e[2])
+        return RAISES if a is RAISES else ("app", e[1], a)
     raise Unsupported(str(e)[:80])
 
 
@@ -423,5 +565,13 @@ def emit() -> str:
               "def truthinessSites : List (String × String × String) := ["]
     ts = list(dict.fromkeys(truthiness_sites()))   # distinct, first occurrence order
     lines += ["  (" + ", ".join(_lean_str(x) for x in t) + ")" + ("," if i < len(ts) - 1 else "") for i, t in enumerate(ts)]
+    lines += ["]", "", "/-- every keyword argument of a call in `Router` / `Firewall` / `WirelessRouter.from_config` (and of the calls in "
+              "`PrimaiteGame.from_config`) whose value is read from a mapping of the file, translated -/",
+              "def kwargTable : List KwRow := ["]
+    kws = kwarg_sites()
+    for i, r in enumerate(kws):
+        lines.append(f"  {{ function := {_lean_str(r['function'])}, callee := {_lean_str(r['callee'])}, keyword := {_lean_str(r['keyword'])}, "
+                     f"ownKey := {_lean_str(r['own_key'])}, altKey := {_lean_str(r['alt_key'])},\n"
+                     f"    f := fun own dflt fn => {lean(r['expr'])} }}" + ("," if i < len(kws) - 1 else ""))
     lines += ["]", "end Primaite.Gen.ConfigResolve", ""]
     return "\n".join(lines)
